@@ -16,7 +16,7 @@ for (w, n) in ((13, 5), (64, 3), (1, 0)):
     inst(P, 'c09_access_iter_nth_w%d_n%d' % (w, n), 'c09::access_iter_nth(%d, %d)' % (w, n), unwind=12, tier='quick' if n == 5 else 'thorough',
          desc='AccessIter<IntVector> %dx%d: nth/nth_back for all usize n after a prefix; get_or all indices' % (w, n), shape={'width': w, 'len': n})
 inst(P, 'c09_ctor_errors', 'c09::ctor_errors()', unwind=4, desc='IntVector::new/with_capacity/with_len reject width 0 and >64; SparseBuilder::new rejects ones > universe: Err, no panic, all usize')
-inst(P, 'c09_rl_try_set', 'c09::rl_try_set()', unwind=4, cap=600, stubs=['nofmt'], mem=8, desc='RLBuilder::try_set: two calls with all usize (start, len): Err exactly when out of order or overflowing, state unchanged on Err')
+inst(P, 'c09_rl_try_set', 'c09::rl_try_set()', unwind=24, cap=600, stubs=['nofmt'], mem=8, desc='RLBuilder::try_set: two calls with all usize (start, len): Err exactly when out of order or overflowing, state unchanged on Err')
 
 extra(P, assumptions=['out-of-range instances build no support structure: the documented out-of-range answers are decided before any support is consulted (in-range: C01)',
                       'C02/C03/C15 instances already range over all usize arguments and are part of this property too'],
